@@ -155,6 +155,31 @@ pub fn c04_configs(tier: Tier) -> Vec<InCfg> {
                     bp,
                 });
             }
+            if bp == 0 && !cork && !hauto && ver == Ver::V5 {
+                // a response the encoder must refuse: the peer's Maximum Packet Size is 40 bytes and the SUBACK of a
+                // 40-filter SUBSCRIBE does not fit. The connection must end; it must not go on with that response
+                // silently missing (mutation-sweep survivor: the encoder error of a drained response was dropped)
+                let mut epx = ep.clone();
+                // (v5 only: the v3 handshake's max_packet_size also limits what the server accepts, so the 40-filter
+                // SUBSCRIBE itself would be refused)
+                let connect_props = vec![(0x27, crate::refmqtt::PVal::U32(40))];
+                let _ = &mut epx;
+                v.push(InCfg {
+                    ep: epx,
+                    connect_props,
+                    alphabet: vec![T::Pub { qos: 1, id: 0, len: 1, topic: 0, alias: 0 }, T::SubMany(0), T::Ping],
+                    prologue: vec![],
+                    max_len: if tier == Tier::Quick { 3 } else { 4 },
+                    outcomes: vec![GateOutcome::Ok],
+                    poutcomes: vec![GateOutcome::Ok],
+                    cork,
+                    judge: J_C04,
+                    app_sends: vec![],
+                    skip_connect: false,
+                    known: vec![],
+                    bp,
+                });
+            }
             v.push(InCfg {
                 ep,
                 connect_props: vec![],
@@ -214,7 +239,7 @@ pub fn run_c04(tier: Tier) -> i32 {
         }
     }
     ck.rule = format!(
-        "v3 and v5 server: every sequence of up to {} requests over {{PUBLISH q1, PUBLISH q2, PUBREL, PINGREQ, SUBSCRIBE, UNSUBSCRIBE, (v5) AUTH}} with distinct packet ids (and, without back-pressure, over {{PUBLISH q0 - a request without a response packet -, PUBLISH q1, PINGREQ, SUBSCRIBE}}); publish handler and protocol service each immediately-ready or gated; arrivals one per read or corked into arbitrary groups; handler completions in every order; two variants with write back-pressure episodes (the peer stops / resumes reading at any quiescent point, 1 episode with an 8-byte or 2 episodes with a 4-byte high watermark of the write buffer, so that the dispatcher's back-pressure state is entered after two / one buffered responses); {} injection(s) while tasks are runnable (quick: full length without injection, one request fewer with one). Oracle after every step: handler-produced responses on the wire are a prefix of the request order; at the end of healthy runs they are exactly the request order",
+        "v3 and v5 server: every sequence of up to {} requests over {{PUBLISH q1, PUBLISH q2, PUBREL, PINGREQ, SUBSCRIBE, UNSUBSCRIBE, (v5) AUTH}} with distinct packet ids (and, without back-pressure, over {{PUBLISH q0 - a request without a response packet -, PUBLISH q1, PINGREQ, SUBSCRIBE}}, and (v5) over {{PUBLISH q1, PINGREQ, a 40-filter SUBSCRIBE whose SUBACK exceeds the peer's 40-byte maximum packet size and cannot be encoded}}); publish handler and protocol service each immediately-ready or gated; arrivals one per read or corked into arbitrary groups; handler completions in every order; two variants with write back-pressure episodes (the peer stops / resumes reading at any quiescent point, 1 episode with an 8-byte or 2 episodes with a 4-byte high watermark of the write buffer, so that the dispatcher's back-pressure state is entered after two / one buffered responses); {} injection(s) while tasks are runnable (quick: full length without injection, one request fewer with one). Oracle after every step: handler-produced responses on the wire are a prefix of the request order; at the end of healthy runs they are exactly the request order",
         if tier == Tier::Quick { 4 } else { 5 },
         ecfg.max_dev
     );
